@@ -17,9 +17,16 @@ _EMPTY = _Empty()
 class _DictView:
     def __init__(self, wrapper: internal.RepeatedValueWrapper[MetaItem, MetaItem]):
         self._wrapper = wrapper
+        self._mapping = wrapper  # what the inherited membership tests, set operations and repr() of the dict views go through
 
     def __len__(self) -> int:
         return len(self._wrapper)
+
+
+class _ValuesView(_DictView):
+    def __contains__(self, value: object) -> bool:
+        # the wrapper iterates over its items, not over its keys, so the inherited implementation does not apply
+        return any(v is value or v == value for v in self)  # type: ignore[attr-defined]
 
 
 class RepeatedRawMetaKeysView(_DictView, KeysView[str]):
@@ -32,7 +39,7 @@ class RepeatedRawMetaKeysView(_DictView, KeysView[str]):
             yield item.key
 
 
-class RepeatedRawMetaValuesView(_DictView, ValuesView[MetaItem]):
+class RepeatedRawMetaValuesView(_ValuesView, ValuesView[MetaItem]):
     def __iter__(self) -> Iterator[MetaItem]:
         return iter(self._wrapper)
 
@@ -153,7 +160,7 @@ class RepeatedMetaKeysView(_DictView, KeysView[str]):
             yield item.key
 
 
-class RepeatedMetaValuesView(_DictView, ValuesView[Optional[MetaValue]]):
+class RepeatedMetaValuesView(_ValuesView, ValuesView[Optional[MetaValue]]):
     def __iter__(self) -> Iterator[Optional[MetaValue]]:
         for item in self._wrapper:
             yield item.value
